@@ -342,8 +342,16 @@ class Mix(Scenario):
             steps.append(Step('request', go_unsub))
         else:
             # credit 'onsub': initial request-n 1, the rest granted by subscription.request(n) from inside on_subscribe
+            # cancel_after >= 100: cancel from inside on_next of element number cancel_after-100
+            def before_cancel(sub_, was_complete):
+                st['cancel_log'] = len(w.log)
+                st['pending_at_cancel'] = not was_complete
+                st['sid'] = getattr(sub_.subscription, 'stream_id', None)
+
+            inside = it.cancel_after is not None and it.cancel_after >= 100
             sub = RecSubscriber(w, side, 'sub' + it.tag, cancel_on_subscribe=(it.cancel_after == -1),
-                                request_on_subscribe=(7 if it.credit == 'onsub' else None))
+                                request_on_subscribe=(7 if it.credit == 'onsub' else None),
+                                cancel_in_on_next=(it.cancel_after - 100 if inside else None), before_cancel=before_cancel)
             st['sub'] = sub
             n0 = MAXN if it.credit == 'max' else 1
             if it.credit == 'one':
@@ -365,7 +373,7 @@ class Mix(Scenario):
                 steps.append(Step('request', go_and_note))
             else:
                 steps.append(Step('request', go))
-            if it.cancel_after is not None and it.cancel_after >= 0:
+            if it.cancel_after is not None and 0 <= it.cancel_after < 100:
                 k = it.cancel_after
 
                 def cancel(w):
